@@ -452,6 +452,7 @@ def main(argv):
     else:
         proved = c.prove("C06")
         proved = c.prove("C06Mirror") and proved
+        proved = c.prove("C06Power") and proved
 
     marks.append(("translate+prove", time.time()))
     # ---- 3. the real code
